@@ -291,4 +291,5 @@ pub fn run(ctx: &Ctx) {
     run_all(ctx);
     schedules(ctx);
     floods(ctx);
+    crate::c02_mesh::run(ctx);
 }
